@@ -1,5 +1,23 @@
 // Command c18 exercises disjoint.Set on histories of Union/UnionBuffered/Find/FindBuffered
-// and prints, after every operation, the partition it represents (C18).
+// (plus same-set queries and the views taken in the middle of a history) and prints the
+// partition it represents after every operation (dense cases) or at chosen points (sparse
+// cases, used for large n) (C18).
+//
+// Case syntax (shared with ocaml/c18/driver.ml):
+//
+//	<n>[:s][:c<cap>];tok tok ...
+//
+// header flag s = sparse: the partition is observed only at `o` tokens; without it it is
+// observed after every token.  c<cap> = capacity of the scratch buffer handed to the buffered
+// calls (default 4; one buffer is re-used by all calls of a case).  Tokens:
+//
+//	f<x> F<x>           Find / FindBuffered
+//	u<x>,<y> U<x>,<y>   Union / UnionBuffered
+//	q<x>,<y> Q<x>,<y>   Find(x) == Find(y) with Find / FindBuffered, item q0|q1
+//	o                   item = the partition (least member of every element's class), taken on a copy
+//	v                   Sets(), SmallestRep(), Roots() on the set itself, item v<sets>~<sr>~<roots>
+//
+// Deleting tokens keeps a case valid (shrink: tokens).
 package main
 
 import (
@@ -14,39 +32,74 @@ import (
 )
 
 type op struct {
-	kind byte // f F u U
+	kind byte // f F u U q Q o v
 	x, y int
 }
 
 func (o op) String() string {
-	if o.kind == 'f' || o.kind == 'F' {
+	switch o.kind {
+	case 'f', 'F':
 		return fmt.Sprintf("%c%d", o.kind, o.x)
+	case 'o', 'v':
+		return string(o.kind)
 	}
 	return fmt.Sprintf("%c%d,%d", o.kind, o.x, o.y)
 }
 
-func caseLine(n int, ops []op) string {
+type header struct {
+	n      int
+	sparse bool
+	bufCap int
+}
+
+func (h header) String() string {
+	s := strconv.Itoa(h.n)
+	if h.sparse {
+		s += ":s"
+	}
+	if h.bufCap != 4 {
+		s += fmt.Sprintf(":c%d", h.bufCap)
+	}
+	return s
+}
+
+func caseLine(h header, ops []op) string {
 	s := make([]string, len(ops))
 	for i, o := range ops {
 		s[i] = o.String()
 	}
-	return fmt.Sprintf("%d;%s", n, strings.Join(s, " "))
+	return h.String() + ";" + strings.Join(s, " ")
 }
 
-func parseCase(line string) (int, []op) {
+func parseCase(line string) (header, []op) {
 	parts := strings.SplitN(line, ";", 2)
-	n, _ := strconv.Atoi(parts[0])
+	hs := strings.Split(parts[0], ":")
+	h := header{bufCap: 4}
+	h.n, _ = strconv.Atoi(hs[0])
+	for _, f := range hs[1:] {
+		switch {
+		case f == "s":
+			h.sparse = true
+		case strings.HasPrefix(f, "c"):
+			h.bufCap, _ = strconv.Atoi(f[1:])
+		}
+	}
+	if h.bufCap < 1 {
+		h.bufCap = 1
+	}
 	var ops []op
 	for _, t := range strings.Fields(parts[1]) {
 		o := op{kind: t[0]}
-		nums := strings.Split(t[1:], ",")
-		o.x, _ = strconv.Atoi(nums[0])
-		if len(nums) > 1 {
-			o.y, _ = strconv.Atoi(nums[1])
+		if len(t) > 1 {
+			nums := strings.Split(t[1:], ",")
+			o.x, _ = strconv.Atoi(nums[0])
+			if len(nums) > 1 {
+				o.y, _ = strconv.Atoi(nums[1])
+			}
 		}
 		ops = append(ops, o)
 	}
-	return n, ops
+	return h, ops
 }
 
 // labels gives every element the least member of its class, computed on a copy so that
@@ -54,7 +107,7 @@ func parseCase(line string) (int, []op) {
 func labels(ds disjoint.Set) []int {
 	c := append(disjoint.Set(nil), ds...)
 	lab := make([]int, len(c))
-	rootMin := map[int]int{}
+	rootMin := make(map[int]int, 8)
 	for i := range c {
 		r := c.Find(i)
 		if m, ok := rootMin[r]; ok {
@@ -77,59 +130,501 @@ func depth(ds disjoint.Set, x int) int {
 	return d
 }
 
-// run executes the history; it returns the observation and whether some Find walked a path
-// with at least three elements above... i.e. compression actually rewrote a parent pointer.
-func run(n int, ops []op) (obs string, compressed bool) {
-	var sb, strict strings.Builder
-	ds := disjoint.New(n)
-	buf := make([]int, 1, 4)
-	for i, o := range ops {
-		switch o.kind {
-		case 'f':
-			if depth(ds, o.x) >= 2 {
-				compressed = true
-			}
-			fmt.Fprintf(&strict, "%d ", ds.Find(o.x))
-		case 'F':
-			if depth(ds, o.x) >= 2 {
-				compressed = true
-			}
-			fmt.Fprintf(&strict, "%d ", ds.FindBuffered(o.x, buf))
-		case 'u':
-			if depth(ds, o.x) >= 2 || depth(ds, o.y) >= 2 {
-				compressed = true
-			}
-			ds.Union(o.x, o.y)
-		case 'U':
-			if depth(ds, o.x) >= 2 || depth(ds, o.y) >= 2 {
-				compressed = true
-			}
-			ds.UnionBuffered(o.x, o.y, buf)
-		}
-		if i > 0 {
-			sb.WriteByte('|')
-		}
-		sb.WriteString(hx.Ints(labels(ds)))
-	}
-	// the views; each is taken on its own copy, as the model does
-	lab := labels(ds)
-	c1 := append(disjoint.Set(nil), ds...)
-	sets := c1.Sets()
+func setsStr(sets [][]int) string {
 	ss := make([]string, len(sets))
 	for i, s := range sets {
 		ss[i] = strings.ReplaceAll(hx.Ints(s), ",", ".")
 	}
-	c2 := append(disjoint.Set(nil), ds...)
-	sr := c2.SmallestRep()
-	c3 := append(disjoint.Set(nil), ds...)
-	roots := c3.Roots()
+	return strings.Join(ss, "/")
+}
+
+func rootLabels(lab, roots []int) []int {
 	rl := make([]int, len(roots))
 	for i, r := range roots {
 		rl[i] = lab[r]
 	}
 	sort.Ints(rl)
-	fmt.Fprintf(&sb, ";sets=%s;sr=%s;roots=%s", strings.Join(ss, "/"), hx.Ints(sr), hx.Ints(rl))
-	return sb.String() + " ## " + hx.Ints([]int(ds)) + " finds=" + strings.TrimSpace(strict.String()), compressed
+	return rl
+}
+
+// viewsCost is the driver's estimate of the model steps of sets + smallest_rep on a set with
+// this partition (same formula and threshold as ocaml/c18/driver.ml: above the threshold the
+// driver derives the expected final views from the partition instead of running the quadratic
+// model functions on Peano indices).  Used for the histogram only.
+func viewsCost(lab []int) int {
+	n := len(lab)
+	idx := make([]int, n)
+	k, c := 0, 0
+	for i := 0; i < n; i++ {
+		if lab[i] == i {
+			idx[i] = k
+			k++
+			c += 2*k + 2*i
+		} else {
+			c += 2*(idx[lab[i]]+1) + 2*(lab[i]+1)
+		}
+	}
+	return c * n
+}
+
+const viewBudget = 16_000_000
+
+type outcome struct {
+	obs        string
+	compressed bool // some lookup walked a path of >= 3 elements (compression rewrote a pointer)
+	maxWalk    int  // longest path (in links) walked by a lookup of the history
+	viewsModel bool
+	viol       []hx.OracleViolation
+}
+
+// run executes the history.
+func run(h header, ops []op) (out outcome) {
+	var sb, strict strings.Builder
+	n := h.n
+	ds := disjoint.New(n)
+	buf := make([]int, 1, h.bufCap)
+	first := true
+	item := func(s string) {
+		if !first {
+			sb.WriteByte('|')
+		}
+		first = false
+		sb.WriteString(s)
+	}
+	walked := func(xs ...int) {
+		for _, x := range xs {
+			d := depth(ds, x)
+			if d >= 2 {
+				out.compressed = true
+			}
+			if d > out.maxWalk {
+				out.maxWalk = d
+			}
+		}
+	}
+	// A representative is a member of its own set and lookups do not change representatives, so
+	// looking up the value just returned must give it back (checked on a copy).
+	checkRep := func(i int, o op, r int) {
+		if len(out.viol) > 0 {
+			return
+		}
+		if r < 0 || r >= n {
+			out.viol = append(out.viol, hx.Fail("C18:find-range", "op %d (%s) returned %d, not an element of 0..%d", i, o, r, n-1))
+			return
+		}
+		c := append(disjoint.Set(nil), ds...)
+		if r2 := c.Find(r); r2 != r {
+			out.viol = append(out.viol, hx.Fail("C18:find-not-representative", "op %d (%s) returned %d, but Find(%d) immediately afterwards is %d: the value returned is not the representative of its own set", i, o, r, r, r2))
+		}
+	}
+	for i, o := range ops {
+		switch o.kind {
+		case 'f':
+			walked(o.x)
+			r := ds.Find(o.x)
+			fmt.Fprintf(&strict, "%d ", r)
+			checkRep(i, o, r)
+		case 'F':
+			walked(o.x)
+			r := ds.FindBuffered(o.x, buf)
+			fmt.Fprintf(&strict, "%d ", r)
+			checkRep(i, o, r)
+		case 'u':
+			walked(o.x, o.y)
+			ds.Union(o.x, o.y)
+		case 'U':
+			walked(o.x, o.y)
+			ds.UnionBuffered(o.x, o.y, buf)
+		case 'q', 'Q':
+			walked(o.x)
+			var rx, ry int
+			if o.kind == 'q' {
+				rx = ds.Find(o.x)
+				walked(o.y)
+				ry = ds.Find(o.y)
+			} else {
+				rx = ds.FindBuffered(o.x, buf)
+				walked(o.y)
+				ry = ds.FindBuffered(o.y, buf)
+			}
+			if rx == ry {
+				item("q1")
+			} else {
+				item("q0")
+			}
+		case 'o':
+			item(hx.Ints(labels(ds)))
+		case 'v':
+			for x := 0; x < n && !out.compressed; x++ {
+				walked(x)
+			}
+			sets := ds.Sets()
+			sr := ds.SmallestRep()
+			roots := ds.Roots()
+			item("v" + setsStr(sets) + "~" + hx.Ints(sr) + "~" + hx.Ints(rootLabels(labels(ds), roots)))
+		}
+		if !h.sparse && o.kind != 'o' {
+			item(hx.Ints(labels(ds)))
+		}
+	}
+	// the final views; each is taken on its own copy, as the model does
+	lab := labels(ds)
+	out.viewsModel = viewsCost(lab) <= viewBudget
+	c1 := append(disjoint.Set(nil), ds...)
+	sets := c1.Sets()
+	c2 := append(disjoint.Set(nil), ds...)
+	sr := c2.SmallestRep()
+	c3 := append(disjoint.Set(nil), ds...)
+	roots := c3.Roots()
+	fmt.Fprintf(&sb, ";sets=%s;sr=%s;roots=%s", setsStr(sets), hx.Ints(sr), hx.Ints(rootLabels(lab, roots)))
+	out.obs = sb.String() + " ## " + hx.Ints([]int(ds)) + " finds=" + strings.TrimSpace(strict.String())
+	return out
+}
+
+func exec(line string) hx.Result {
+	h, ops := parseCase(line)
+	out := run(h, ops)
+	mode := "dense"
+	if h.sparse {
+		mode = "sparse"
+	}
+	views := "views:derived-from-partition"
+	if out.viewsModel {
+		views = "views:model"
+	}
+	return hx.Result{Obs: out.obs, Nontrivial: out.compressed, Viol: out.viol, Buckets: []string{
+		fmt.Sprintf("n<=%d", bucket(h.n)), fmt.Sprintf("len<=%d", bucket(len(ops))),
+		fmt.Sprintf("walk<=%d", bucket(out.maxWalk)), mode, views}}
+}
+
+// ---------------------------------------------------------------- generator
+
+// ref is the generator's own copy of the documented algorithm (union by rank, second argument
+// wins a tie, compression of all but the last two path elements).  It only steers the
+// generator (which elements are roots now, which element is deepest); it is not an oracle.
+type ref []int
+
+func newRef(n int) ref {
+	r := make(ref, n)
+	for i := range r {
+		r[i] = -1
+	}
+	return r
+}
+
+func (r ref) find(x int) int {
+	var seen []int
+	for r[x] >= 0 {
+		seen = append(seen, x)
+		x = r[x]
+	}
+	for i := 0; i+1 < len(seen); i++ {
+		r[seen[i]] = x
+	}
+	return x
+}
+
+func (r ref) union(x, y int) {
+	px, py := r.find(x), r.find(y)
+	switch {
+	case px == py:
+	case r[px] < r[py]:
+		r[py] = px
+	case r[py] < r[px]:
+		r[px] = py
+	default:
+		r[px] = py
+		r[py]--
+	}
+}
+
+func (r ref) depth(x int) int {
+	d := 0
+	for r[x] >= 0 {
+		x = r[x]
+		d++
+	}
+	return d
+}
+
+func (r ref) apply(o op) {
+	switch o.kind {
+	case 'f', 'F':
+		r.find(o.x)
+	case 'u', 'U':
+		r.union(o.x, o.y)
+	case 'q', 'Q':
+		r.find(o.x)
+		r.find(o.y)
+	}
+}
+
+// kinds chooses between the unbuffered and the buffered variant of a call.
+type kinds struct {
+	mode int // 0 unbuffered only, 1 buffered only, 2 mixed
+	r    *hx.Rng
+}
+
+func (k kinds) pick(lower, upper byte) byte {
+	switch k.mode {
+	case 0:
+		return lower
+	case 1:
+		return upper
+	}
+	if k.r.Bool() {
+		return lower
+	}
+	return upper
+}
+func (k kinds) u() byte { return k.pick('u', 'U') }
+func (k kinds) f() byte { return k.pick('f', 'F') }
+func (k kinds) q() byte { return k.pick('q', 'Q') }
+
+const (
+	shChainAsc  = iota // Union(e[i], e[i+1]): every call joins the tree built so far with a fresh singleton
+	shChainDesc        // Union(e[i+1], e[i]): the same with the arguments exchanged
+	shBinomial         // rounds of unions of pairs of current roots (equal ranks: the deepest trees union by rank allows)
+	shRootPairs        // unions of two random current roots, random argument order (all rank combinations, no compression)
+	shUniform          // unions of random elements (compression inside Union)
+	shMixed            // a different one of the above per group
+	nShapes
+)
+
+var shapeName = []string{"chain-asc", "chain-desc", "binomial-roots", "random-root-pairs", "uniform", "mixed"}
+
+// buildGroup emits the unions that join the elements e (in this order) by the given shape and
+// applies them to sim.  frac < 1 stops early (leaves several sets).
+func buildGroup(r *hx.Rng, k kinds, sim ref, e []int, shape int, stopAfter int, emit func(op)) {
+	m := len(e)
+	if stopAfter > m-1 {
+		stopAfter = m - 1
+	}
+	cnt := 0
+	do := func(x, y int) bool {
+		if cnt >= stopAfter {
+			return false
+		}
+		o := op{k.u(), x, y}
+		sim.apply(o)
+		emit(o)
+		cnt++
+		return true
+	}
+	switch shape {
+	case shChainAsc:
+		for i := 0; i+1 < m && do(e[i], e[i+1]); i++ {
+		}
+	case shChainDesc:
+		for i := 0; i+1 < m && do(e[i+1], e[i]); i++ {
+		}
+	case shBinomial:
+		roots := append([]int(nil), e...)
+		for len(roots) > 1 {
+			var next []int
+			i := 0
+			for ; i+1 < len(roots); i += 2 {
+				a, b := roots[i], roots[i+1]
+				if r.Bool() {
+					a, b = b, a
+				}
+				if !do(a, b) {
+					return
+				}
+				next = append(next, sim.find(a))
+			}
+			if i < len(roots) {
+				next = append(next, roots[i])
+			}
+			roots = next
+		}
+	case shRootPairs:
+		roots := append([]int(nil), e...)
+		for len(roots) > 1 {
+			i := r.Intn(len(roots))
+			j := r.Intn(len(roots) - 1)
+			if j >= i {
+				j++
+			}
+			if !do(roots[i], roots[j]) {
+				return
+			}
+			w := sim.find(roots[i])
+			if i < j {
+				i, j = j, i
+			}
+			roots[i] = roots[len(roots)-1]
+			roots = roots[:len(roots)-1]
+			roots[j] = w
+		}
+	default: // uniform
+		for t := 0; t < 2*m && do(e[r.Intn(m)], e[r.Intn(m)]); t++ {
+		}
+	}
+}
+
+// genBig builds a sparse case over n elements: the elements are split into k groups, every
+// group is joined by unions in an order that gives the deepest tree some linking rule allows,
+// then come lookups that start at the deep ends, snapshots of the partition and spot
+// operations.  mid says whether views in the middle of the history are affordable for the model.
+func genBig(r *hx.Rng, n, k, shape, kindMode int, mid bool) (header, []op) {
+	h := header{n: n, sparse: true, bufCap: []int{1, 2, 4, 4, 64, 65, n + 1}[r.Intn(7)]}
+	kd := kinds{kindMode, r}
+	sim := newRef(n)
+	var ops []op
+	emit := func(o op) { ops = append(ops, o) }
+	// relabelling: identity, reversal or a random permutation
+	perm := make([]int, n)
+	switch r.Intn(4) {
+	case 0:
+		for i := range perm {
+			perm[i] = i
+		}
+	case 1:
+		for i := range perm {
+			perm[i] = n - 1 - i
+		}
+	default:
+		perm = r.Perm(n)
+	}
+	if k > n {
+		k = n
+	}
+	groups := make([][]int, k)
+	switch r.Intn(3) {
+	case 0: // interleaved: small least elements, roots anywhere
+		for i := 0; i < n; i++ {
+			groups[i%k] = append(groups[i%k], i)
+		}
+	case 1: // contiguous blocks of unequal size
+		cuts := []int{0, n}
+		for len(cuts) < k+1 {
+			c := r.Range(1, n-1)
+			dup := false
+			for _, d := range cuts {
+				dup = dup || d == c
+			}
+			if !dup {
+				cuts = append(cuts, c)
+			}
+		}
+		sort.Ints(cuts)
+		for g := 0; g < k; g++ {
+			for i := cuts[g]; i < cuts[g+1]; i++ {
+				groups[g] = append(groups[g], i)
+			}
+		}
+	default: // random assignment, no group empty
+		for i := 0; i < n; i++ {
+			g := r.Intn(k)
+			if i < k {
+				g = i
+			}
+			groups[g] = append(groups[g], i)
+		}
+	}
+	var deep []int // elements that are deep under some linking rule
+	for _, gi := range r.Perm(k) {
+		e := groups[gi]
+		// within a group: by position (perm applied), sometimes in a random order
+		if r.Chance(1, 3) {
+			p := r.Perm(len(e))
+			e2 := make([]int, len(e))
+			for i, j := range p {
+				e2[i] = e[j]
+			}
+			e = e2
+		}
+		for i := range e {
+			e[i] = perm[e[i]]
+		}
+		groups[gi] = e
+		sh := shape
+		if sh == shMixed {
+			sh = r.Intn(shMixed)
+		}
+		stop := len(e)
+		if r.Chance(1, 6) {
+			stop = r.Range(len(e)/2, len(e))
+		}
+		buildGroup(r, kd, sim, e, sh, stop, emit)
+		// the ends of the build order are the deep ends of a path if ranks are ignored or
+		// compared the wrong way round; under the documented rule the deepest is found on sim
+		second := e[0]
+		if len(e) > 1 {
+			second = e[1]
+		}
+		deep = append(deep, e[0], e[len(e)-1], second)
+		best, bd := e[0], -1
+		for _, x := range e {
+			if d := sim.depth(x); d > bd {
+				best, bd = x, d
+			}
+		}
+		deep = append(deep, best)
+	}
+	add := func(o op) { sim.apply(o); emit(o) }
+	pickDeep := func() int { return deep[r.Intn(len(deep))] }
+	// first lookups after the build: either a snapshot first (on a copy: does not compress the
+	// set under test) or straight a lookup from a deep end
+	if r.Bool() {
+		add(op{kind: 'o'})
+	}
+	first := r.Range(1, 4)
+	for t := 0; t < first; t++ {
+		x := pickDeep()
+		if t == 0 {
+			// the sim-deepest element of the group built first, or an end of its build order
+			x = deep[r.Intn(4)]
+		}
+		switch r.Intn(4) {
+		case 0:
+			add(op{kd.f(), x, 0})
+		case 1:
+			add(op{kd.q(), x, pickDeep()})
+		case 2:
+			add(op{kd.q(), r.Intn(n), x})
+		default:
+			add(op{kd.u(), x, pickDeep()})
+		}
+	}
+	add(op{kind: 'o'})
+	// spot operations
+	spots := 8 + r.Intn(n/4+1)
+	if spots > 300 {
+		spots = 300
+	}
+	snapAt := -1
+	if r.Bool() {
+		snapAt = r.Intn(spots)
+	}
+	for t := 0; t < spots; t++ {
+		x, y := r.Intn(n), r.Intn(n)
+		if r.Chance(1, 3) {
+			x = pickDeep()
+		}
+		switch c := r.Intn(10); {
+		case c < 3:
+			add(op{kd.f(), x, 0})
+		case c < 6:
+			add(op{kd.q(), x, y})
+		case c < 8: // union inside one group (no change of the partition once the group is joined)
+			g := groups[r.Intn(k)]
+			add(op{kd.u(), g[r.Intn(len(g))], g[r.Intn(len(g))]})
+		case c < 9 && k > 1 && r.Chance(1, 3): // join two groups
+			add(op{kd.u(), x, y})
+		default:
+			add(op{kd.q(), x, pickDeep()})
+		}
+		if t == snapAt {
+			add(op{kind: 'o'})
+		}
+		if mid && r.Chance(1, 40) {
+			add(op{kind: 'v'})
+		}
+	}
+	add(op{kind: 'o'})
+	return h, ops
 }
 
 func genHistory(r *hx.Rng, n, length int, style int) []op {
@@ -184,17 +679,33 @@ func genHistory(r *hx.Rng, n, length int, style int) []op {
 	return ops
 }
 
-func exec(line string) hx.Result {
-	n, ops := parseCase(line)
-	obs, comp := run(n, ops)
-	return hx.Result{Obs: obs, Nontrivial: comp, Buckets: []string{fmt.Sprintf("n<=%d", bucket(n)), fmt.Sprintf("len<=%d", bucket(len(ops)))}}
+// sprinkle turns some lookups of a history into same-set queries and inserts a few views taken
+// on the set itself.
+func sprinkle(r *hx.Rng, n int, ops []op) []op {
+	out := make([]op, 0, len(ops)+2)
+	for _, o := range ops {
+		if (o.kind == 'f' || o.kind == 'F') && r.Chance(1, 3) {
+			o = op{o.kind - 'f' + 'q', o.x, r.Intn(n)}
+		}
+		out = append(out, o)
+		// the model's views are cubic in n on Peano indices: several per case only for small n
+		if n <= 40 && r.Chance(1, 25) {
+			out = append(out, op{kind: 'v'})
+		}
+	}
+	if n > 40 && r.Chance(1, 4) {
+		i := r.Intn(len(out) + 1)
+		out = append(out[:i], append([]op{{kind: 'v'}}, out[i:]...)...)
+	}
+	return out
 }
 
 func gen(g *hx.Gen) {
-	do := func(n int, ops []op) { g.Emit(caseLine(n, ops)) }
+	do := func(n int, ops []op) { g.Emit(caseLine(header{n: n, bufCap: 4}, ops)) }
 	// corpus: the chain of the non-vacuity example of Props/C18.v
 	do(8, []op{{'u', 0, 1}, {'u', 2, 3}, {'u', 1, 3}, {'u', 4, 5}, {'u', 6, 7}, {'u', 5, 7}, {'u', 3, 7}, {'f', 0, 0}})
 	do(1, []op{{'f', 0, 0}, {'u', 0, 0}})
+	do(1, []op{{kind: 'v'}, {'q', 0, 0}, {kind: 'o'}})
 	// exhaustive small spaces
 	exh := func(n, length int, kinds []byte) {
 		var all []op
@@ -236,36 +747,101 @@ func gen(g *hx.Gen) {
 		exh(4, 4, []byte{'u', 'f'})
 		exh(3, 5, []byte{'u', 'f'})
 	}
+	r := g.Rng
+
+	// Large sets, sparse observation.  For every size boundary B (a plausible capacity of a
+	// fixed path buffer or threshold of a second code path) and every union order: n just
+	// above B joined into ONE set (path length n under a wrong linking rule), and n below / at /
+	// further above B split into a few sets.
+	bounds := []int{64, 128, 256, 512, 1024}
+	if g.Thorough() {
+		bounds = append(bounds, 2048, 4096)
+	}
+	kindMode := r.Intn(3)
+	for _, b := range bounds {
+		reps := g.Pick(1, 4)
+		if b >= 2048 {
+			reps = 1
+		}
+		for shape := 0; shape < nShapes; shape++ {
+			for rep := 0; rep < reps; rep++ {
+				offs := []int{1, []int{-1, 0, 2, 3 + r.Intn(b/2)}[r.Intn(4)]}
+				if g.Thorough() {
+					offs = []int{1, -1, 0, 2, 3 + r.Intn(b/2)}
+				}
+				for i, off := range offs {
+					n := b + off
+					k := 1
+					if i > 0 || rep > 0 {
+						k = []int{1, 2, 3, 5, 8}[r.Intn(5)]
+					}
+					h, ops := genBig(r, n, k, shape, kindMode%3, n <= 140)
+					kindMode++
+					g.Emit(caseLine(h, ops))
+				}
+			}
+		}
+	}
+	// a few histories well above the last boundary
+	for i, cnt := 0, g.Pick(3, 24); i < cnt; i++ {
+		n := r.Range(1500, 2100)
+		if g.Thorough() && i%4 == 3 {
+			n = r.Range(2100, 5000)
+		}
+		h, ops := genBig(r, n, []int{1, 1, 2, 4}[r.Intn(4)], []int{shChainAsc, shChainDesc, shBinomial, shRootPairs, shMixed}[i%5], kindMode%3, false)
+		kindMode++
+		g.Emit(caseLine(h, ops))
+	}
+	// sizes between the boundaries, many sets, roots that are not least elements
+	for i, cnt := 0, g.Pick(60, 1500); i < cnt; i++ {
+		n := r.Range(65, 300)
+		if r.Chance(1, 4) {
+			n = r.Range(65, 70)
+		}
+		h, ops := genBig(r, n, r.Range(1, 12), r.Intn(nShapes), r.Intn(3), n <= 140)
+		g.Emit(caseLine(h, ops))
+	}
+
 	count := g.Pick(6000, 200000)
 	for i := 0; i < count; i++ {
 		var n int
-		switch g.Rng.Intn(4) {
+		switch r.Intn(4) {
 		case 0:
-			n = g.Rng.Range(1, 6)
+			n = r.Range(1, 6)
 		case 1:
-			n = g.Rng.Range(4, 16)
+			n = r.Range(4, 16)
 		case 2:
-			n = g.Rng.Range(8, 33)
+			n = r.Range(8, 33)
 		default:
-			n = g.Rng.Range(16, 64)
+			n = r.Range(16, 64)
 		}
-		length := g.Rng.Range(1, 12)
-		if g.Rng.Chance(1, 2) {
-			length = g.Rng.Range(n, 3*n+4)
+		length := r.Range(1, 12)
+		if r.Chance(1, 2) {
+			length = r.Range(n, 3*n+4)
+		}
+		if r.Chance(1, 60) {
+			// dense observation just around and above the 64 boundary; long histories only (the
+			// model's final views are cubic in n on a partition into near-singletons)
+			n = r.Range(63, 140)
+			length = r.Range(n/2, 120)
 		}
 		if length > 120 {
 			length = 120
 		}
-		do(n, genHistory(g.Rng, n, length, g.Rng.Intn(3)))
+		ops := genHistory(r, n, length, r.Intn(3))
+		if r.Chance(1, 3) {
+			ops = sprinkle(r, n, ops)
+		}
+		do(n, ops)
 	}
 }
 
 func main() {
 	hx.Main(hx.Prop{
-		Rule:        "history = n plus a list of Union/UnionBuffered/Find/FindBuffered calls with indices < n; non-trivial = some call walked a path of >= 3 elements so that path compression rewrote a parent pointer; distinct by history text",
+		Rule:        "history = n plus a list of Union/UnionBuffered/Find/FindBuffered calls, same-set queries and views with indices < n; non-trivial = some call walked a path of >= 3 elements so that path compression rewrote a parent pointer; distinct by history text",
 		Gen:         gen,
 		Exec:        exec,
-		CaseTimeout: 4 * time.Second,
+		CaseTimeout: 20 * time.Second,
 		MemMB:       2048,
 	})
 }
